@@ -246,7 +246,9 @@ impl RecordPrinter for JsonPrinter {
         row: &Record,
         _display_config: &DisplayConfig,
     ) -> io::Result<()> {
-        serde_json::to_writer(out, row).expect("failed to format");
+        // a record larger than stdout's line buffer is written straight through, so this can fail
+        // with a broken pipe: report it like every other output error
+        serde_json::to_writer(out, row).map_err(io::Error::from)?;
         Ok(())
     }
 }
